@@ -633,8 +633,56 @@ def _reach_avoiding(main, start, removed_blocks, removed_edges):
 def _exists_on_default_edge(main, tb, ei, d, wi):
     """every feasible path from block d (default path built) to the write passes the exists() call block;
     branches on the constant is-default flag set on that path are resolved"""
-    inf = _flag_infeasible_edges(main, d) | _option_infeasible_edges(main, tb, d)
+    inf = _flag_infeasible_edges(main, d) | _option_infeasible_edges(main, tb, d) | _helper_flag_infeasible_edges(main, tb, d)
     return wi not in _reach_avoiding(main, d, {ei}, inf)
+
+
+def _helper_flag_infeasible_edges(main, tb, d):
+    """the default path comes out of a helper together with a flag (`fn resolve(..) -> (PathBuf, bool)`): when every alternative
+    the helper returns with a derived path (`with_extension`, a `.pdf` constant) carries the constant flag `true`, the false edge
+    of a test of that flag cannot be taken with a derived path"""
+    from mir import summary
+    t = main.term(d)
+    if t.get("k") != "call":
+        return set()
+    F = tb.facts
+    hb = F.bodies.get(t["callee"])
+    if hb is None or hb.crate != main.crate or not (hb.ret.startswith("(") and "PathBuf" in hb.ret and "bool" in hb.ret):
+        return set()
+    sm = summary(F, hb.id, 1)
+    alts = sm[1] if isinstance(sm, tuple) and sm and sm[0] == "phi" else (sm,)
+    flags = {}
+    for a in alts:
+        if not (isinstance(a, tuple) and a and a[0] == "tuple" and len(a[1]) >= 2):
+            return set()
+        derived = any(isinstance(x, tuple) and x and ((x[0] == "call" and x[1].endswith("with_extension")) or (x[0] == "str" and str(x[1]).endswith(".pdf")))
+                      for x in subterms(a[1][0]))
+        if not derived:
+            continue
+        for k, comp in enumerate(a[1]):
+            if isinstance(comp, tuple) and comp and comp[0] == "int" and comp[1] in (0, 1):
+                flags.setdefault(k, set()).add(comp[1])
+            else:
+                flags.setdefault(k, set()).add(None)
+    out = set()
+    ct = tb.call_term(t)
+    for k, vs in flags.items():
+        if len(vs) != 1 or None in vs:
+            continue
+        v = next(iter(vs))
+        for s_, sw in main.terms_of_kind("switch"):
+            if tb.operand(sw["discr"]) != ("field", ct, str(k)):
+                continue
+            for val, tgt in sw["targets"]:
+                if int(val) != v:
+                    out.add((s_, tgt))
+            if v == 0 or all(int(val) != v for val, _ in sw["targets"]):
+                pass
+            elif sw.get("otherwise") is not None and v == 0:
+                out.add((s_, sw["otherwise"]))
+            if v == 0 and sw.get("otherwise") is not None:
+                out.add((s_, sw["otherwise"]))
+    return out
 
 
 def _consts(rv):
